@@ -743,6 +743,10 @@ def rule_r6(chk, p, t, rid="C04.R6"):
         table = None
         tname = None
         for n in walk_no_nested(fn.node):
+            if isinstance(n, ast.Subscript) and isinstance(n.value, (ast.Tuple, ast.List)) and len(n.value.elts) == 12 and all(isinstance(e, ast.Constant) for e in n.value.elts):
+                # the table written (or inlined by the normaliser) as a literal at its use
+                table, tname, idx = [e.value for e in n.value.elts], "<literal>", n.slice
+                continue
             if isinstance(n, ast.Subscript) and isinstance(n.value, ast.Name):
                 v = fn.module.assigns.get(n.value.id)
                 if v is None:
